@@ -109,3 +109,40 @@ def lcg_ints(seed, n, lo, hi):
         x = (x * 6364136223846793005 + 1442695040888963407) % (1 << 64)
         out.append(lo + ((x >> 33) % span))
     return out
+
+
+def np_mix(seed, *index_arrays):
+    """Vectorised 64-bit mixing (splitmix64 finaliser) of broadcastable integer index arrays and a seed:
+    a pure function of its arguments, returned as non-negative int64 (63 bits)."""
+    import numpy as np
+
+    with np.errstate(over="ignore"):
+        x = np.uint64(int(seed) % (1 << 64)) * np.uint64(0x9E3779B97F4A7C15) + np.uint64(0x632BE59BD9B4E019)
+        mults = [0xBF58476D1CE4E5B9, 0x94D049BB133111EB, 0xD6E8FEB86659FD93, 0xA0761D6478BD642F]
+        for k, a in enumerate(index_arrays):
+            x = x + (np.asarray(a).astype(np.uint64) + np.uint64(k + 1)) * np.uint64(mults[k % 4])
+            x = x ^ (x >> np.uint64(30))
+            x = x * np.uint64(0xBF58476D1CE4E5B9)
+            x = x ^ (x >> np.uint64(27))
+            x = x * np.uint64(0x94D049BB133111EB)
+            x = x ^ (x >> np.uint64(31))
+    return (x >> np.uint64(1)).astype(np.int64)
+
+
+def threshold_sizes(lo, hi, extra=()):
+    """Strategy: a size next to an implementation threshold, each threshold family (16, 32, 64, 128, 256, 1024, 2048)
+    within [lo, hi] equally likely (then the value b-1 / b / b+1; only 2049 for the last family), plus `extra` values as
+    families of their own."""
+    from hypothesis import strategies as st
+
+    fams = []
+    for b in (16, 32, 64, 128, 256, 1024):
+        vals = [v for v in (b, b + 1, b - 1) if lo <= v <= hi]
+        if vals:
+            fams.append(vals)
+    if lo <= 2049 <= hi:
+        fams.append([2049])
+    for e in extra:
+        fams.append([e])
+    # large families first would make Hypothesis shrink towards them; keep the small ones first
+    return st.sampled_from(list(range(len(fams)))).flatmap(lambda i: st.sampled_from(fams[i]))
